@@ -1023,6 +1023,9 @@ FIXED = [
      "        try:\n            self.t: int = 2\n        except E:\n            self.u += 1\n"
      "        def inner():\n            self.in_def = 1\n        while a:\n            a.not_self = 1\n"
      "    def n(this):\n        this.v = [this.w]\n    z = (p, in_for, v)\n"),
+    ("class K:\n    def defaults(self): return dict(\n        a=1,\n    b=2)\n    def other(self):\n        return 1\n"
+     "    class Inner: v = [\n        1,\n        2]\n    w = 3\ndef top(): return (1 +\n  2)\nz = 0\n"
+     "def cont(): x = 1 + \\\n    2\ny = 1\n"),
     "class A:\n    x = 1\nclass B:\n    x = 2\n    z = 3\nclass C(A, B):\n    y = x\n    def m(self):\n        self.z = y\nclass D(C):\n    w = (x, z)\n",
 ]
 
